@@ -2,8 +2,11 @@ package checks
 
 import (
 	"fmt"
+	"github.com/hyperjumptech/grule-rule-engine/ast"
+	"github.com/hyperjumptech/grule-rule-engine/engine"
 	"sort"
 	"strings"
+	"sync"
 	"sync/atomic"
 	"time"
 
@@ -254,6 +257,10 @@ func C11(rep *ev.Reporter, tier string) {
 			}
 		}
 	})
+	nb, ntb := c11SharedEngine(rep, tier)
+	calls += nb
+	nontrivial += ntb
+	rep.Coverage["calls_on_a_shared_engine_value"] = nb
 	rep.Coverage["programs"] = programs
 	rep.Coverage["evaluations"] = calls
 	rep.Coverage["states"] = states
@@ -266,5 +273,152 @@ func C11(rep *ev.Reporter, tier string) {
 		rep.Exhaustive = false
 		rep.Coverage["caps_hit"] = "time budget"
 	}
-	rep.Coverage["rule"] = "every rule set of 2 rules over 10 conditions (true, false, state-dependent, shared sub-expression, nil pointer, missing fact, kind mismatch, index out of range, parenthesised map lookup that errors in one world - shared between two shapes) x 6 salience pairs x removal sets (library- and instance-level) x both values of ReturnErrOnFailedRuleEvaluation, every rule set of 3 rules over 5 (thorough 8) conditions x 6 salience triples x 3 removal sets x flag (thorough: 4 rules), 2 fact states, EVERY rule-iteration order (k!), each call on a fresh instance AND on an instance that served an earlier Fetch with the other fact state AND on one that served an earlier Execute (every rule retracts itself when it fires) with either fact state, the Execute placed before or after the instance-level removals; states = (program, world) pairs, transitions = FetchMatchingRules calls. Oracle: returned names == non-removed rules whose condition the reference evaluator finds true (each once), model saliences non-increasing, facts unchanged, no action probe ran, error returned iff flag set and some condition fails. Non-trivial: >=2 rules satisfied."
+	rep.Coverage["rule"] = "every rule set of 2 rules over 10 conditions (true, false, state-dependent, shared sub-expression, nil pointer, missing fact, kind mismatch, index out of range, parenthesised map lookup that errors in one world - shared between two shapes) x 6 salience pairs x removal sets (library- and instance-level) x both values of ReturnErrOnFailedRuleEvaluation, every rule set of 3 rules over 5 (thorough 8) conditions x 6 salience triples x 3 removal sets x flag (thorough: 4 rules), 2 fact states, EVERY rule-iteration order (k!), each call on a fresh instance AND on an instance that served an earlier Fetch with the other fact state AND on one that served an earlier Execute (every rule retracts itself when it fires) with either fact state, the Execute placed before or after the instance-level removals; states = (program, world) pairs, transitions = FetchMatchingRules calls. Oracle: returned names == non-removed rules whose condition the reference evaluator finds true (each once), model saliences non-increasing, facts unchanged, no action probe ran, error returned iff flag set and some condition fails. Non-trivial: >=2 rules satisfied. Second family (one engine value serves several calls): every history of 1..3 FetchMatchingRules calls over 3 knowledge bases x 2 fact states on ONE *GruleEngine, every returned slice retained and re-read after every later call; and every such call nested inside a condition probe of an outer call on the same engine value. Each retained answer must keep naming exactly the rules that were satisfied at its own call, in salience order."
+}
+
+// c11SharedEngine: the answers of FetchMatchingRules stay what they were, however the engine value is used afterwards
+// (or meanwhile, from inside a fact method).
+func c11SharedEngine(rep *ev.Reporter, tier string) (ncalls, nontrivial int64) {
+	texts := []string{
+		`rule a1 salience 9 { when F.I2 >= 0 then F.Act(1); }
+rule a2 salience 1 { when F.Chk(1) && F.I2 >= 0 then F.Act(2); }
+rule a3 salience 5 { when F.I2 == 0 then F.Act(3); }`,
+		`rule b1 salience 7 { when F.I2 >= 0 then F.Act(4); }
+rule b2 salience 3 { when F.I2 == 1 then F.Act(5); }`,
+		`rule c1 { when F.I2 >= 0 && F.Chk(2) then F.Act(6); }`,
+	}
+	want := [][][]string{{{"a1", "a3", "a2"}, {"a1", "a2"}}, {{"b1"}, {"b1", "b2"}}, {{"c1"}, {"c1"}}} // [program][world]
+	libs := make([]*ast.KnowledgeLibrary, len(texts))
+	for i, t := range texts {
+		l, err := hx.BuildText(t)
+		if err != nil {
+			rep.Violation("harness:build-failed:c11shared", err.Error(), nil)
+			return
+		}
+		libs[i] = l
+	}
+	type call struct{ prog, world int }
+	var alphabet []call
+	for p := range texts {
+		for w := 0; w < 2; w++ {
+			alphabet = append(alphabet, call{p, w})
+		}
+	}
+	type hist struct {
+		calls  []call
+		nested int // index into alphabet of the call nested into the FIRST probe of the LAST call, -1 none
+	}
+	var hs []hist
+	var rec func(cur []call)
+	rec = func(cur []call) {
+		if len(cur) > 0 {
+			hs = append(hs, hist{append([]call{}, cur...), -1})
+			if last := cur[len(cur)-1]; last.prog != 1 { // programs 0 and 2 have a condition probe
+				for ni := range alphabet {
+					hs = append(hs, hist{append([]call{}, cur...), ni})
+				}
+			}
+		}
+		if len(cur) == 3 {
+			return
+		}
+		for _, c := range alphabet {
+			rec(append(cur, c))
+		}
+	}
+	rec(nil)
+	var mu sync.Mutex
+	var n, nt int64
+	ParallelEach(len(hs), func(hi int) {
+		h := hs[hi]
+		var parts []string
+		for _, c := range h.calls {
+			parts = append(parts, fmt.Sprintf("p%dw%d", c.prog, c.world))
+		}
+		caseID := fmt.Sprintf("c11/shared-engine/%s/nested%d", strings.Join(parts, ">"), h.nested)
+		if rep.ReplayFilter != "" && rep.ReplayFilter != caseID {
+			return
+		}
+		run := func() (sig, what string) {
+			eng := &engine.GruleEngine{MaxCycle: 10}
+			type kept struct {
+				label string
+				rs    []*ast.RuleEntry
+				want  []string
+			}
+			var keptAll []kept
+			check := func(after string) (string, string) {
+				for _, k := range keptAll {
+					var got []string
+					for _, r := range k.rs {
+						got = append(got, r.RuleName)
+					}
+					if strings.Join(got, ",") != strings.Join(k.want, ",") {
+						return "C11:returned-answer-changed-by-later-use-of-the-engine", fmt.Sprintf("the slice returned by call %s named %v at its return; after %s it names %v", k.label, k.want, after, got)
+					}
+				}
+				return "", ""
+			}
+			doCall := func(c call, label string, onProbe func(string, int64, int)) (string, string) {
+				kb, err := libs[c.prog].NewKnowledgeBaseInstance(hx.KBName, hx.KBVer)
+				if err != nil {
+					return "C11:instance-failed", err.Error()
+				}
+				rs, ferr, pan := hx.FetchOn(eng, kb, c11World(int64(c.world))(), 0, onProbe)
+				atomic.AddInt64(&n, 1)
+				if pan != nil || ferr != nil {
+					return "C11:unexpected-error", fmt.Sprint(ferr, pan)
+				}
+				w := want[c.prog][c.world]
+				var got []string
+				for _, r := range rs {
+					got = append(got, r.RuleName)
+				}
+				if strings.Join(got, ",") != strings.Join(w, ",") {
+					return "C11:wrong-rule-set:engine-value-used-before-or-meanwhile", fmt.Sprintf("call %s returned %v, expected %v", label, got, w)
+				}
+				keptAll = append(keptAll, kept{label, rs, w})
+				return check("call " + label)
+			}
+			for i, c := range h.calls {
+				label := fmt.Sprintf("#%d(%s)", i+1, parts[i])
+				var onProbe func(string, int64, int)
+				var nsig, nwhat string
+				if i == len(h.calls)-1 && h.nested >= 0 {
+					done := false
+					onProbe = func(kind string, id int64, k int) {
+						if kind == "chk" && !done {
+							done = true
+							nc := alphabet[h.nested]
+							nsig, nwhat = doCall(nc, fmt.Sprintf("nested-in-%s(p%dw%d)", label, nc.prog, nc.world), nil)
+						}
+					}
+				}
+				if sig, what := doCall(c, label, onProbe); sig != "" {
+					return sig, what
+				}
+				if nsig != "" {
+					return nsig, nwhat
+				}
+			}
+			return "", ""
+		}
+		sig, what := run()
+		if len(h.calls) > 1 || h.nested >= 0 {
+			atomic.AddInt64(&nt, 1)
+		}
+		if sig != "" {
+			if s2, _ := run(); s2 != sig {
+				fmt.Printf("HARNESS-NONDETERMINISM property=C11 case=%s\n", caseID)
+				return
+			}
+			mu.Lock()
+			rep.Violation(sig, what+"\n  case: "+caseID, map[string]interface{}{"case": caseID, "history": parts, "nested": h.nested})
+			mu.Unlock()
+		}
+		if hi == 40 {
+			rep.Sample(map[string]interface{}{"case": caseID, "history": parts, "nested_call": h.nested, "programs": texts})
+		}
+	})
+	return n, nt
 }
